@@ -414,6 +414,7 @@ func c12(run *ev.Run, tier string) {
 		ncfg = *flagCases
 	}
 	run.Rule = "a -race build of the harness runs, in a child process per GOMAXPROCS value (plus short-lived children that start with one configuration and the scenario that meets its lazily initialised process-wide state cold: signing keys, changelog template, deprecation notice), four scenarios per generated aliasing-rich configuration (file_info on dir/symlink/ghost entries, per-format overrides, every third config signed with passphrase-protected keys, zstd/xz/gzip compressors; every second one with a payload file beyond 1 MiB, the others with a tree of 180 entries; one in four without any configured mtime (clock fallback, compared for success only); one in four colliding for exactly one format, which must fail while the others are built from the same configuration): (a) one parsed config, Get up front, five formats concurrently; (b) same with Get inside the goroutines; (c) 8 / 32 goroutines with independently parsed settings and any format incl. the same one; (d) four goroutines on the same format, format after format; start offsets are jittered from the seed; the scenario order rotates per configuration and per child, and seven configurations out of eight (all of the quick tier) take their sequential baseline only after the concurrent scenarios (cold start of process-wide state). Monitors: a batch that is still running after 10 minutes (builds blocking each other; goroutine dump in the report), race-detector reports (log_path files, deduplicated by the innermost nfpm functions of both accesses), panics/fatal errors, errors that the sequential build does not have, and byte equality of every unsigned concurrent result with the sequential baseline. non-trivial = packaging that overlapped in time with another one; distinct = distinct sets of formats observed in flight together"
+	run.Rule += "; whole nfpm processes for all five formats started at once into one directory (targets differing only in the extension / conventional names in one target directory), each compared with the package of a run on its own"
 	if !raceEnabled {
 		run.Inconclusive("the harness was built without -race; run through bin/check.sh C12")
 		return
